@@ -143,7 +143,7 @@ func specMICMatches(c *e2eCase, air []byte) bool {
 }
 
 func genCase(t *rapid.T) e2eCase {
-	c := e2eCase{F: *gen.DataFrame(t, gen.DataMType(t), gen.DataOpts{MaxTotal: 255})}
+	c := e2eCase{F: *gen.DataFrame(t, gen.DataMType(t), gen.DataOpts{MaxTotal: 255, PropCIDs: true})}
 	c.F.MIC = [4]byte{}
 	c.V11 = rapid.Bool().Draw(t, "v11")
 	c.ConfFCnt = gen.U32(t, "conffcnt")
@@ -215,6 +215,17 @@ func checkE2E(c e2eCase, allBits bool) evid.Outcome {
 	}
 	if g.FPort != c.F.FPort || !bytes.Equal(g.FOpts, c.F.FOpts) || !bytes.Equal(g.FRM, c.F.FRM) || g.DevAddr != c.F.DevAddr || g.FCnt != c.F.FCnt || g.FCtrl() != c.F.FCtrl() || g.MType != c.F.MType {
 		return evid.Fail("receiver obtains FOpts=%x FPort=%d FRMPayload=%x, sender sent FOpts=%x FPort=%d FRMPayload=%x", g.FOpts, g.FPort, g.FRM, c.F.FOpts, c.F.FPort, c.F.FRM)
+	}
+	// ... as the commands the sender put in, one by one (not only as bytes that re-encode to the same)
+	if rm, ok := q.MACPayload.(*lorawan.MACPayload); ok {
+		if err := gen.CmdsMatch(up, rm.FHDR.FOpts, c.F.FOpts, "the receiver's FOpts"); err != nil {
+			return evid.Fail("%v", err)
+		}
+		if c.F.FPort == 0 && len(c.F.FRM) > 0 {
+			if err := gen.CmdsMatch(up, rm.FRMPayload, c.F.FRM, "the receiver's port-0 FRMPayload"); err != nil {
+				return evid.Fail("%v", err)
+			}
+		}
 	}
 	m := q.MACPayload.(*lorawan.MACPayload)
 	if len(c.F.FOpts) > 0 {
